@@ -421,7 +421,7 @@ def main(argv):
         props_of_interest = set([pid] + cfg.get("also_monitors", []))
         for summ in summaries:
             for mv in summ.get("monitor_violations") or []:
-                if mv.get("property") not in props_of_interest:
+                if mv.get("property") != "*" and mv.get("property") not in props_of_interest:
                     continue
                 k = known_match(known, pid, mv.get("key")) or known_match(known, mv.get("property"), mv.get("key"))
                 if k:
